@@ -9,6 +9,8 @@ operator is additive and homogeneous, and it annihilates zero.
 -/
 import AurelVerif.Props.C07
 
+set_option linter.unusedSectionVars false
+
 namespace AurelVerif.C07
 open AurelVerif.Splice AurelVerif.StencilLemmas
 
@@ -52,7 +54,6 @@ theorem evalLin_relabel (row : Lin Nat) (f : Nat → K) :
 /-- **linearity of every operator of the model** (one-sided, periodic, symmetric; every
 order and size): with `rows` the model's output on positions `0..N-1`, the output on the
 samples `f 0 … f (N-1)` is `rows` relabelled, hence additive, homogeneous and odd in `f`. -/
-omit [Field K] in
 theorem d3_linear (b : Boundary) (s : Scheme) (N : Nat) (f : Nat → K) :
     d3 b s ((List.range N).map f) N
       = (d3 b s (List.range N) N).map (fun rows => rows.map (fun row => row.map (fun ca => (ca.1, f ca.2)))) :=
